@@ -136,6 +136,28 @@ theorem cut_cutout_cover (w : Nat) (out : List Nat) (i : Nat) (hi : i < w) :
 
 /-! ### every transform emits exactly one output row per input row, in input order -/
 
+/-- `movefield` rearranges the columns and nothing else: the output positions are a permutation of the input positions
+    (no field lost, none duplicated — also when several fields carry the same name), and every output cell is the input
+    cell at its position, padded like `cut` -/
+theorem movefield_is_a_permutation (n fidx : Nat) (i : Int) (h : fidx < n) :
+    (moveFieldIdx n fidx i).Perm (List.range n) := by
+  unfold moveFieldIdx pyInsert
+  simp only []
+  have hmem : fidx ∈ List.range n := List.mem_range.mpr h
+  have hnd : (List.range n).Nodup := List.nodup_range
+  have herase : (List.range n).filter (fun j => j != fidx) = (List.range n).erase fidx := (List.Nodup.erase_eq_filter hnd fidx).symm
+  rw [herase]
+  generalize pyInsertPos ((List.range n).erase fidx).length i = j
+  have h1 : (List.take j ((List.range n).erase fidx) ++ fidx :: List.drop j ((List.range n).erase fidx)).Perm
+      (fidx :: (List.take j ((List.range n).erase fidx) ++ List.drop j ((List.range n).erase fidx))) := List.perm_middle
+  rw [List.take_append_drop] at h1
+  exact h1.trans (List.perm_cons_erase hmem).symm
+
+theorem movefield_cells (n fidx : Nat) (i : Int) (missing : Val) (rows : List Row) :
+    pickRows (moveFieldIdx n fidx i) missing rows = rows.map (fun r => (moveFieldIdx n fidx i).map (padGet missing r)) := rfl
+
+example : moveFieldIdx 3 0 1 = [1, 0, 2] ∧ moveFieldIdx 3 2 0 = [2, 0, 1] ∧ moveFieldIdx 3 0 (-1) = [1, 0, 2] := by decide
+
 theorem addrownumbersRows_length (a b : Int) : ∀ (rows : List Row) (k : Nat),
     (addrownumbersRows a b k rows).length = rows.length := by
   intro rows
